@@ -125,9 +125,9 @@ func Specs() map[string]*PropSpec {
 	}
 	an := func(kv ...string) Inst { return Inst{Pkg: "app/ante", Fn: "VerifC06_Routes", Params: pm(kv...)} }
 	m["C06"] = &PropSpec{
-		ID: "C06", Pkgs: []string{"./app/ante"},
-		Quick:    []Inst{an("depth", "2", "width", "2", "top", "2"), an("depth", "8", "width", "1", "top", "1")},
-		Thorough: []Inst{an("depth", "2", "width", "2", "top", "2"), an("depth", "3", "width", "2", "top", "1"), an("depth", "9", "width", "1", "top", "2")},
+		ID: "C06", Pkgs: []string{"./app/ante", "./app/ante/evm"},
+		Quick:    []Inst{an("depth", "2", "width", "2", "top", "2"), an("depth", "8", "width", "1", "top", "1"), {Pkg: "app/ante/evm", Fn: "VerifC06_EthRouteTypes", Params: pm()}},
+		Thorough: []Inst{an("depth", "2", "width", "2", "top", "2"), an("depth", "3", "width", "2", "top", "1"), an("depth", "9", "width", "1", "top", "2"), {Pkg: "app/ante/evm", Fn: "VerifC06_EthRouteTypes", Params: pm()}},
 		Bounds: map[string]string{
 			"quick":    "every transaction of <= 2 top-level messages, nesting depth <= 2 with <= 2 children per MsgExec (7 node kinds: exec, grant of eth / vesting-create / send, MsgEthereumTx, MsgCreateVestingAccount, MsgSend), plus single chains nested up to depth 8 (beyond the cap of 7); every list of <= 2 extension options over {eth, web3, dynamic-fee, unknown}",
 			"thorough": "additionally depth 3 x width 2 (1 top-level message) and chains to depth 9 with 2 top-level messages",
@@ -145,6 +145,32 @@ func Specs() map[string]*PropSpec {
 		},
 		Outside:     []string{"BuildTx -> TxEncoder -> TxDecoder (protobuf Any packing and generated marshal code: typed blobs here)", "hash and sender recovery (RLP, keccak, secp256k1): functions of exactly the compared fields, not re-derived", "longer data / access lists than the bound"},
 		Assumptions: []string{"big.Int theory; (*big.Int).Bytes / SetBytes as an inverse pair with the empty string for zero", "codectypes.Any keeps the cached value; proto.Marshal is a typed blob", "(*Transaction).Hash stubbed (uninterpreted)"},
+	}
+	m["C07"] = &PropSpec{
+		ID: "C07", Pkgs: []string{"./x/evm/keeper", "./app/ante/evm", "./app/ante/cosmos"},
+		Quick: []Inst{{Pkg: "x/evm/keeper", Fn: "VerifC07_GasUsed", Params: pm(), EngineReplay: true}, {Pkg: "x/evm/keeper", Fn: "VerifC07_VerifyFee", Params: pm()},
+			{Pkg: "app/ante/evm", Fn: "VerifC07_EthFloor", Params: pm("msgs", "2")}, {Pkg: "app/ante/cosmos", Fn: "VerifC07_CosmosFloor", Params: pm()}},
+		Thorough: []Inst{{Pkg: "x/evm/keeper", Fn: "VerifC07_GasUsed", Params: pm(), EngineReplay: true}, {Pkg: "x/evm/keeper", Fn: "VerifC07_VerifyFee", Params: pm()},
+			{Pkg: "app/ante/evm", Fn: "VerifC07_EthFloor", Params: pm("msgs", "3")}, {Pkg: "app/ante/cosmos", Fn: "VerifC07_CosmosFloor", Params: pm()}},
+		Bounds: map[string]string{
+			"quick":    "one message call through the real ApplyMessageWithConfig + RefundGas with the EVM interpreter stubbed to an arbitrary outcome (gas limit < 2^62, any leftover, refund counter, VM error, intrinsic gas; multiplier any Dec in [0,1]; price < 2^128); VerifyFee for legacy and dynamic-fee data; eth min-gas-price decorator over <= 2 messages; Cosmos min-gas-price decorator over 5 fee shapes",
+			"thorough": "eth min-gas-price decorator over <= 3 messages",
+		},
+		Outside:     []string{"contract creation (nonce bump through the account keeper)", "EthGasConsumeDecorator / DeductTxCostsFromUserBalance (SDK DeductFees): the deduction amount is VerifyFee's result, which is decided", "multi-message transactions through ApplyTransaction (hooks, bloom, receipts)", "what the real interpreter returns (go-ethereum): any outcome within its contract is covered"},
+		Assumptions: []string{"(*vm.EVM).Call / Create, Keeper.NewEVM, GetEthIntrinsicGas replaced by a stub: leftover <= gas given, arbitrary error, arbitrary refund counter", "the up-front deduction of gasLimit x price sits in the fee collector (ante handler, decided separately by VerifyFee)", "bank stub moves coins exactly as asked", "GasUsed counterexamples are confirmed by concrete re-execution in the SSA interpreter (a native build cannot stub the EVM)"},
+		Stubs:       []string{"c07NewEVM/c07Call/c07Create/c07Intrinsic", "c07Bank", "c07FeeMarket", "vEVMKeeper", "vFeeMarket"},
+	}
+	m["C03"] = &PropSpec{
+		ID: "C03", Pkgs: []string{"./app/ante/evm"},
+		Quick:    []Inst{{Pkg: "app/ante/evm", Fn: "VerifC03_Nonce", Params: pm("msgs", "3")}},
+		Thorough: []Inst{{Pkg: "app/ante/evm", Fn: "VerifC03_Nonce", Params: pm("msgs", "4")}},
+		Bounds: map[string]string{
+			"quick":    "Ethereum transactions of <= 3 messages by 2 senders in any interleaving (legacy and dynamic-fee), any nonces, any account sequences < 2^62; immediate replay of the accepted transaction",
+			"thorough": "<= 4 messages",
+		},
+		Outside:     []string{"signature validity (keccak-256, RLP, secp256k1 recovery, EIP-712 typed-data hashing): cannot be encoded for an SMT solver within reach", "chain-id binding of signatures", "Cosmos and EIP-712 routes' sequence checks (SDK SigVerificationDecorator / LegacyEip712SigVerificationDecorator need real signatures)"},
+		Assumptions: []string{"account keeper stub holding BaseAccounts", "sequences only grow (each accepted message increments), so rejection right after acceptance extends to every later state"},
+		Stubs:       []string{"vAK"},
 	}
 	return m
 }
